@@ -357,6 +357,20 @@ theorem lineGraphFrom_spec (es : List Edge) (d : Dist) (s : Rat) (weighted : Boo
 theorem mem_allOrdered {α : Type} {es : List α} {a b : α} : (a, b) ∈ allOrdered es ↔ a ∈ es ∧ b ∈ es := by
   simp [allOrdered, List.mem_flatMap]
 
+theorem foldlM_none_of_mem {σ α : Type} (f : σ → α → Option σ) (l : List α) (p : α) (hp : p ∈ l)
+    (hf : ∀ st, f st p = none) (st : σ) : l.foldlM f st = none := by
+  induction l generalizing st with
+  | nil => simp at hp
+  | cons a t ih =>
+    rw [List.foldlM_cons]
+    rw [List.mem_cons] at hp
+    cases h : f st a with
+    | none => rfl
+    | some st' =>
+      rcases hp with rfl | hp
+      · rw [hf] at h; cases h
+      · exact ih hp st'
+
 theorem dVal_getElem (es : List DEdge) (d : Dist) (i j : Nat) (hi : i < es.length) (hj : j < es.length) :
     dVal es d i j = distV d es[i].2 es[j].1 := by
   simp [dVal, List.getD_eq_getElem?_getD, List.getElem?_eq_getElem hi, List.getElem?_eq_getElem hj]
